@@ -248,9 +248,60 @@ func run(c *vk.Ctx, sc scenario, idx int) {
 	}
 }
 
+// stalled: the outgoing path is blocked when Stop() is called (nobody takes messages from the handler's full outgoing
+// buffer, as with a peer that stopped reading): the Logout cannot leave, no answer ever comes, and the session context
+// must still be cancelled when the close timeout has elapsed.
+func stalled(c *vk.Ctx, role rig.Role, closeTO time.Duration, idx int) {
+	desc := fmt.Sprintf("%s stop-with-stalled-outgoing-path closeTimeout=%v (handler buffer 1, full, nobody reads it)", role, closeTO)
+	replay := map[string]interface{}{"scenario": desc, "index": idx, "seed": c.Seed}
+	r, err := rig.NewStepRig(rig.StepCfg{Role: role, HeartBtInt: 30, Limits: &session.IntLimits{Min: 5, Max: 60}, CloseTimeout: closeTO, BufferSize: 1, SentinelBarrier: true})
+	if err != nil {
+		c.Inconclusive("rig: " + err.Error())
+		return
+	}
+	defer r.Close()
+	p := rig.NewPeer()
+	r.Inbound(p.Logon(30, "0"))
+	for w := 0; !r.S.IsLogged(); w++ {
+		if w > 2000 {
+			c.Inconclusive("no logon: " + desc)
+			return
+		}
+		time.Sleep(time.Millisecond)
+	}
+	time.Sleep(20 * time.Millisecond)
+	release := r.HoldOutgoing()
+	defer release()
+	filled := make(chan error, 1)
+	go func() { filled <- r.S.Send(fixgen.CreateMarketDataRequestReject("fills-the-buffer")) }()
+	select {
+	case <-filled:
+	case <-time.After(2 * time.Second):
+		c.Inconclusive("could not fill the buffer: " + desc)
+		return
+	}
+	done := r.S.Context().Done()
+	tStop := time.Now()
+	go func() { _ = r.S.Stop() }()
+	j0 := time.Duration(atomic.LoadInt64(&maxJitter))
+	bound := closeTO + 300*time.Millisecond + 3*j0
+	c.Eval(vk.Hash64([]byte(desc)), true)
+	c.Count("stops_with_stalled_outgoing_path", 1)
+	select {
+	case <-done:
+		c.Max("max_cancel_latency_past_deadline_us", (time.Since(tStop) - closeTO).Microseconds())
+	case <-time.After(bound):
+		if time.Duration(atomic.LoadInt64(&maxJitter)) > 100*time.Millisecond {
+			c.Inconclusive("scheduler jitter while waiting for the deadline: " + desc)
+			return
+		}
+		c.Violate("C15/stop-not-cancelled-at-deadline/stalled-outgoing-path/"+role.String(), fmt.Sprintf("%s: context still alive %v after Stop", desc, time.Since(tStop).Round(time.Millisecond)), replay)
+	}
+}
+
 func main() {
 	c := vk.Init("C15")
-	c.Rule("scenarios: role x variant {peer Logout while logged on (then a repeated one); local Logout() then the peer's answer after 0..3 other inbound messages; Stop() answered immediately / after other inbound messages; Stop() never answered; Stop()/Logout() issued while the session's own TestRequest is pending (N=1, 2.3 s of silence)} x close timeout {2s,5s} for answered and {0,50ms,300ms,2s} for unanswered x 0..3 messages before x application EventLogout handler registered before the action or not. Oracle: Logout count on Outgoing() per step, IsLogged, EventLogout, and Context().Done(): within 250 ms (+3x measured scheduler jitter) after the answer's step completed — an order of magnitude below the deadline so the deadline path cannot pass for the answer path — resp. no later than closeTimeout + 300 ms (+jitter) when unanswered. distinct = scenario tuple; non-trivial = all but those where the deadline beat the scripted answer")
+	c.Rule("scenarios: role x variant {peer Logout while logged on (then a repeated one); local Logout() then the peer's answer after 0..3 other inbound messages; Stop() answered immediately / after other inbound messages; Stop() never answered; Stop() while the outgoing path is stalled (full handler buffer nobody reads: the Logout cannot even leave) with close timeout {0,50ms,300ms,1s}; Stop()/Logout() issued while the session's own TestRequest is pending (N=1, 2.3 s of silence)} x close timeout {2s,5s} for answered and {0,50ms,300ms,2s} for unanswered x 0..3 messages before x application EventLogout handler registered before the action or not. Oracle: Logout count on Outgoing() per step, IsLogged, EventLogout, and Context().Done(): within 250 ms (+3x measured scheduler jitter) after the answer's step completed — an order of magnitude below the deadline so the deadline path cannot pass for the answer path — resp. no later than closeTimeout + 300 ms (+jitter) when unanswered. distinct = scenario tuple; non-trivial = all but those where the deadline beat the scripted answer")
 	c.Assume("wall clock is used only for the two bounds the statement itself gives (as soon as the answer arrives / at the latest at the close timeout); a jitter canary turns overloaded runs into inconclusive")
 	stop := make(chan struct{})
 	go canary(stop)
@@ -285,6 +336,15 @@ func main() {
 			defer func() { <-sem }()
 			run(c, sc, i)
 		}(i, sc)
+	}
+	for i, to := range []time.Duration{0, 50 * time.Millisecond, 300 * time.Millisecond, time.Second} {
+		for _, role := range []rig.Role{rig.Acceptor, rig.Initiator} {
+			wg.Add(1)
+			go func(i int, role rig.Role, to time.Duration) {
+				defer wg.Done()
+				stalled(c, role, to, 100000+i)
+			}(i, role, to)
+		}
 	}
 	wg.Wait()
 	close(stop)
